@@ -8,7 +8,7 @@ Lean model.
 from __future__ import annotations
 
 from hv import core  # noqa: F401  (puts HV_REPO first on sys.path)
-from hv.props.c14_impl import Rec, _Stop, traced
+from hv.props.c14_impl import Rec, _Stop, fp_table, make_strategy, traced
 
 
 def kname(i):
@@ -39,11 +39,20 @@ def make_store(spec, lat):
     r, w = lat.get("r", 1000) * 1e-6, lat.get("w", 2000) * 1e-6
     if spec[0] == "bt":
         return BTree("bt", order=spec[1], page_read_latency=r, page_write_latency=w)
+    if spec[0] == "lsm":
+        # ["lsm", memtable size, max levels, compaction strategy]; no WAL (the transaction manager uses put_sync / get_sync / get)
+        from happysimulator.components.storage.lsm_tree import LSMTree
+        return LSMTree("lsm", memtable_size=spec[1], compaction_strategy=make_strategy(spec[3]), wal=None,
+                       sstable_read_latency=r, sstable_write_latency=w, max_levels=spec[2])
     return KVStore("kv", read_latency=r, write_latency=w)
 
 
 def store_lines(spec, store, nkeys):
-    out = ["final " + " ".join(cellstr(store.get_sync(kname(k))) for k in range(nkeys)), f"size {store.size}"]
+    out = ["final " + " ".join(cellstr(store.get_sync(kname(k))) for k in range(nkeys))]
+    if spec[0] == "lsm":
+        summ = {d["level"]: (d["sstables"], d["total_keys"]) for d in store.level_summary}
+        return out + ["size 0", "levels " + " ".join(f"{summ.get(i, (0, 0))[0]}:{summ.get(i, (0, 0))[1]}" for i in range(spec[2]))]
+    out.append(f"size {store.size}")
     if spec[0] == "bt":
         out.append(f"shape {store.depth} {dump_node(store._root)}")     # private: node structure (trusted_base)
     else:
@@ -208,7 +217,12 @@ def config_lines(case):
         spec = case["store"]
     else:
         spec = store_spec(case)
-    body = [f"cfg {case['nkeys']} " + " ".join(map(str, spec))]
+    if spec[0] == "lsm":
+        body = [f"cfg {case['nkeys']} lsm {spec[1]} {spec[2]}", "strat " + " ".join(map(str, spec[3]))]
+        for m, k in fp_table([kname(i) for i in range(case["nkeys"])]):
+            body.append(f"fp {m} {k}")
+    else:
+        body = [f"cfg {case['nkeys']} " + " ".join(map(str, spec))]
     for k, v in case.get("init", []):
         body.append(f"init {k} {v}")
     for opid, op in declared_ops(case):
@@ -343,10 +357,96 @@ def gen_kv(rng, tier):
     return {"family": "kv", "nkeys": n, "lat": lat, "workers": workers}
 
 
+def _lsm_strategy(rng):
+    r = rng.random()
+    if r < 0.4:
+        return ["st", rng.choice([1, 2, 2, 3])]
+    if r < 0.7:
+        return ["lv", rng.choice([1, 2, 3]), rng.choice([1, 2]), rng.choice([1, 2, 3])]
+    return ["fifo", rng.choice([1, 2, 3, 4])]
+
+
 def _txn_store(rng, n):
-    if rng.random() < 0.5:
+    r = rng.random()
+    if r < 0.36:
         return ["kv"], {"r": rng.choice([0, 1, 5, 100]), "w": 100}
-    return ["bt", rng.choice([3, 3, 4])], {"r": rng.choice([1, 5, 100, 1000]), "w": 200}
+    if r < 0.7:
+        return ["bt", rng.choice([3, 3, 4])], {"r": rng.choice([1, 5, 100, 1000]), "w": 200}
+    # LSM tree: small memtables so that commits flush and compact; reads that find nothing in the memtable pay one
+    # page-read latency per SSTable whose bloom filter answers "maybe" and overlap the commits of other transactions
+    return ["lsm", rng.choice([1, 1, 2, 3]), rng.choice([2, 2, 3]), _lsm_strategy(rng)], {"r": rng.choice([1, 5, 100, 1000]), "w": 200}
+
+
+def gen_txn_insert(rng, n, hot, store, lat):
+    """readers that began before a commit which INSERTS brand-new keys (next to overwrites of existing ones) and
+    read those keys afterwards; optionally a further commit overwrites the new key again, a late reader begins
+    after the insert, and a second early reader at another level re-reads everything.  Sleeps and start offsets
+    are drawn so that both orders of (reader's later reads, inserting commit) occur."""
+    keys = list(range(n))
+    nfresh = rng.choice([1, 1, 2]) if n >= 3 else 1
+    fresh = rng.sample(keys, k=nfresh)
+    exist = [k for k in keys if k not in fresh]
+    init = [[k, 100 + k] for k in rng.sample(exist, k=len(exist)) if k < hot or rng.random() < 0.6]
+    if not init:
+        init = [[exist[0], 100 + exist[0]]]
+    have = [k for k, _ in init]
+    val = [0]
+
+    def nv():
+        val[0] += 1
+        return val[0]
+
+    def lvl():
+        r = rng.random()
+        return "si" if r < 0.6 else ("ser" if r < 0.9 else "rc")
+
+    gap = rng.choice([30, 100, 400, 2000, lat["r"] * 3 + 50])
+    workers = []
+    slot = 0
+    # early readers
+    for _ in range(rng.choice([1, 1, 2])):
+        ops = [["begin", slot, lvl()]]
+        if rng.random() < 0.8:
+            ops.append(["read", slot, rng.choice(have)])
+        if rng.random() < 0.3:
+            ops.append(["read", slot, rng.choice(fresh)])          # absent before the insert as well
+        ops.append(["sleep", gap + rng.choice([0, 10, 50, gap])])
+        later = [rng.choice(fresh)] + rng.sample(keys, k=rng.randrange(0, min(3, n) + 1))
+        rng.shuffle(later)
+        for k in later:
+            ops.append(["read", slot, k])
+            if rng.random() < 0.3:
+                ops.append(["sleep", rng.choice([0, 5, 20, gap])])
+        if rng.random() < 0.25:
+            ops.append(["write", slot, rng.choice(keys), nv()])
+        ops.append(["commit", slot] if rng.random() < 0.85 else ["abort", slot])
+        workers.append({"start": rng.choice([0, 0, 1, 5]), "ops": ops})
+        slot += 1
+    # the inserting transaction(s): brand-new keys, often together with an overwrite of an existing key
+    t = rng.choice([5, 10, 20, gap // 2])
+    ops = [["begin", slot, rng.choice(["si", "si", "ser", "rc"])]]
+    ws = [rng.choice(fresh)] + [k for k in fresh if rng.random() < 0.5] + [k for k in have if rng.random() < 0.5]
+    rng.shuffle(ws)
+    for k in dict.fromkeys(ws):
+        ops.append(["write", slot, k, nv()])
+    ops += [["sleep", rng.choice([0, 5, 20])], ["commit", slot]]
+    workers.append({"start": t, "ops": ops})
+    slot += 1
+    if rng.random() < 0.5:
+        # overwrite of the newly created key by a later transaction (its prior value is the inserted one)
+        ops = [["begin", slot, rng.choice(["si", "ser"])], ["write", slot, rng.choice(fresh), nv()]]
+        if rng.random() < 0.3:
+            ops.append(["write", slot, rng.choice(keys), nv()])
+        ops += [["sleep", rng.choice([0, 5])], ["commit", slot]]
+        workers.append({"start": t + rng.choice([15, 40, gap // 2 + 20, gap + 20]), "ops": ops})
+        slot += 1
+    if rng.random() < 0.5:
+        # late reader: begins after the insert, must see it
+        ops = [["begin", slot, lvl()]] + [["read", slot, k] for k in rng.sample(keys, k=rng.randrange(1, min(3, n) + 1))]
+        ops.append(["commit", slot])
+        workers.append({"start": t + rng.choice([40, gap, 3 * gap]), "ops": ops})
+        slot += 1
+    return {"family": "txn", "nkeys": n, "store": store, "init": init, "lat": lat, "workers": workers}
 
 
 def gen_txn(rng, tier):
@@ -357,7 +457,12 @@ def gen_txn(rng, tier):
     filler = rng.choice([0, 0, 2, 4])
     n = hot + filler
     store, lat = _txn_store(rng, n)
-    init = [[k, 100 + k] for k in rng.sample(range(n), k=n) if k < hot or rng.random() < 0.5]
+    # keys the store does not hold when the transactions begin: the first commit that writes one INSERTS it
+    # (there is nothing to overwrite), and a transaction whose snapshot is older must keep reading "absent"
+    fresh = set(rng.sample(range(hot), k=rng.choice([0, 1, 1, 2]))) if rng.random() < 0.5 else set()
+    init = [[k, 100 + k] for k in rng.sample(range(n), k=n) if (k < hot and k not in fresh) or (k >= hot and rng.random() < 0.5)]
+    if rng.random() < 0.22:
+        return gen_txn_insert(rng, n, hot, store, lat)
     val = [0]
 
     def nv():
